@@ -15,7 +15,12 @@ compared
 from __future__ import annotations
 
 import asyncio
+import html
 import itertools
+import os
+import shutil
+import tempfile
+from pathlib import Path
 import signal
 import sys
 import warnings
@@ -54,11 +59,22 @@ SPEC_FUEL = 400
 #       | ("I", template name) | ("N", template name)   include / render tag: harness and Python specification only
 
 
-def to_src(items: Iterable[tuple]) -> str:
+def to_src(items: Iterable[tuple], data: dict | None = None, ae: bool = False) -> str:
+    """Liquid source.  With a `data` dict, every visible text that holds markup
+    or entity characters is printed as an output tag {{ vN }} and data[vN] is
+    the value that renders to that text (the text itself, or with auto-escape
+    the string whose escaping it is)."""
     out = []
     for it in items:
         if it[0] == "T":
-            out.append(it[1])
+            t = it[1]
+            if data is not None and t.strip() and ("<" in t or "&" in t):
+                val = html.unescape(t) if ae else t
+                name = next((k for k, v in data.items() if v == val), None) or f"v{len(data)}"
+                data[name] = val
+                out.append("{{ " + name + " }}")
+            else:
+                out.append(t)
         elif it[0] == "S":
             out.append("{{ block.super }}")
         elif it[0] == "E":
@@ -67,9 +83,9 @@ def to_src(items: Iterable[tuple]) -> str:
             out.append("{% assign z = 1 %}" if it[1] == 0 else "{% comment %}c{% endcomment %}")
         elif it[0] == "W":
             if it[1] == "if":
-                out.append("{% if true %}" + to_src(it[2]) + "{% endif %}")
+                out.append("{% if true %}" + to_src(it[2], data, ae) + "{% endif %}")
             else:
-                out.append("{% for i in (1..1) %}" + to_src(it[2]) + "{% endfor %}")
+                out.append("{% for i in (1..1) %}" + to_src(it[2], data, ae) + "{% endfor %}")
         elif it[0] == "I":
             out.append("{% include '" + it[1] + "' %}")
         elif it[0] == "N":
@@ -77,7 +93,7 @@ def to_src(items: Iterable[tuple]) -> str:
         else:
             _, n, req, body, endn = it
             out.append("{% block " + n + (" required" if req else "") + " %}")
-            out.append(to_src(body))
+            out.append(to_src(body, data, ae))
             out.append("{% endblock" + (" " + endn if endn else "") + " %}")
     return "".join(out)
 
@@ -191,43 +207,66 @@ class Runner:
                 "context_depth_limit": limit, "suppress_blank_control_flow_blocks": suppress})
         return self.env_classes[key]
 
-    def run(self, tpls: dict[str, list], entry: tuple, limit: int, suppress: bool = True) -> list[tuple]:
+    def run(self, tpls: dict[str, list], entry: tuple, limit: int, suppress: bool = True,
+            opts: dict | None = None) -> list[tuple]:
         """entry: ("direct", name) | ("wrap", [(is_render, name), ...]).
-        Returns the four outcomes [dict/sync, dict/async, caching/sync, caching/async]."""
-        from liquid2 import CachingDictLoader, DictLoader
-        srcs = {k: to_src(v) for k, v in tpls.items()}
+        opts: ae = Environment(auto_escape=True); data = markup texts are printed as output
+        tags over render data; more = also FileSystemLoader / CachingFileSystemLoader over a
+        scratch directory and, for a direct entry, env.from_string(leaf source).
+        Returns one outcome per (loader, sync|async) combination: all must agree."""
+        from liquid2 import CachingDictLoader, CachingFileSystemLoader, DictLoader, FileSystemLoader
+        opts = opts or {}
+        ae = bool(opts.get("ae"))
+        data: dict | None = {} if opts.get("data") else None
+        srcs = {k: to_src(v, data, ae) for k, v in tpls.items()}
+        kw = dict(data or {})
+        root = None
+        makers: list[tuple[Any, bool]] = [(lambda: DictLoader(dict(srcs)), False),
+                                          (lambda: CachingDictLoader(dict(srcs)), False)]
+        if opts.get("more"):
+            root = Path(tempfile.mkdtemp(prefix="c08_", dir=os.environ.get("VERIF_SCRATCH", "/var/tmp")))
+            for k, v in srcs.items():
+                f = root / k
+                f.parent.mkdir(parents=True, exist_ok=True)
+                f.write_text(v)
+            makers += [(lambda: FileSystemLoader(root), False), (lambda: CachingFileSystemLoader(root), False)]
+            if entry[0] == "direct" and entry[1] in srcs:
+                makers.append((lambda: DictLoader(dict(srcs)), True))      # from_string(leaf) + extends
         outs = []
-        for loader_cls in (DictLoader, CachingDictLoader):
-            for is_async in (False, True):
-                # texts with markup characters mark the auto-escape variants (template text and
-                # block.super are safe, so the page must be the same as without auto-escape)
-                env = self.env_class(limit, suppress)(loader=loader_cls(dict(srcs)),
-                                                      auto_escape=any("<" in v for v in srcs.values()))
-                # a render that does not end is an outcome, not a hang; the timer repeats because an
-                # exception raised inside a GC/weakref callback is swallowed by the interpreter
-                signal.setitimer(signal.ITIMER_REAL, self.timeout, 0.05)
-                try:
-                    if entry[0] == "direct":
-                        if is_async:
-                            t = self.loop.run_until_complete(env.get_template_async(entry[1]))
+        try:
+            for make, anon in makers:
+                for is_async in (False, True):
+                    env = self.env_class(limit, suppress)(loader=make(), auto_escape=ae)
+                    # a render that does not end is an outcome, not a hang; the timer repeats because an
+                    # exception raised inside a GC/weakref callback is swallowed by the interpreter
+                    signal.setitimer(signal.ITIMER_REAL, self.timeout, 0.05)
+                    try:
+                        if anon:
+                            t = env.from_string(srcs[entry[1]])
+                        elif entry[0] == "direct":
+                            if is_async:
+                                t = self.loop.run_until_complete(env.get_template_async(entry[1]))
+                            else:
+                                t = env.get_template(entry[1])
                         else:
-                            t = env.get_template(entry[1])
-                    else:
-                        w = "".join(("{% render '" if r else "{% include '") + n + "' %}" for r, n in entry[1])
-                        t = env.from_string(w)
-                    if is_async:
-                        outs.append(("ok", self.loop.run_until_complete(t.render_async())))
-                    else:
-                        outs.append(("ok", t.render()))
-                except (RenderTimeout, MemoryError):
-                    signal.setitimer(signal.ITIMER_REAL, 0)
-                    outs.append(("err", "DidNotTerminate"))
-                    self.loop = asyncio.new_event_loop()
-                    self.timeout = 0.5  # keep a broken tree from costing minutes
-                except Exception as e:  # noqa: BLE001
-                    outs.append(("err", type(e).__name__))
-                finally:
-                    signal.setitimer(signal.ITIMER_REAL, 0)
+                            w = "".join(("{% render '" if r else "{% include '") + n + "' %}" for r, n in entry[1])
+                            t = env.from_string(w)
+                        if is_async:
+                            outs.append(("ok", self.loop.run_until_complete(t.render_async(**kw))))
+                        else:
+                            outs.append(("ok", t.render(**kw)))
+                    except (RenderTimeout, MemoryError):
+                        signal.setitimer(signal.ITIMER_REAL, 0)
+                        outs.append(("err", "DidNotTerminate"))
+                        self.loop = asyncio.new_event_loop()
+                        self.timeout = 0.5  # keep a broken tree from costing minutes
+                    except Exception as e:  # noqa: BLE001
+                        outs.append(("err", type(e).__name__))
+                    finally:
+                        signal.setitimer(signal.ITIMER_REAL, 0)
+        finally:
+            if root is not None:
+                shutil.rmtree(root, ignore_errors=True)
         return outs
 
 
@@ -622,24 +661,80 @@ def _map_items(items: list, f) -> list:
     return out
 
 
-def markupify(case: tuple) -> tuple:
-    """The same chain with markup characters in every visible text; the
-    runner turns auto-escape on for it."""
+MARKUP_MODES = [{"ae": True}, {"ae": True, "data": True}, {"data": True}]
+
+
+def markupify(case: tuple, mode: dict) -> tuple:
+    """The same chain with markup characters (< & ") in every visible text, as
+    literal template text or (mode data) as render data behind output tags,
+    with auto-escape on or off.  The abstract text is what must be on the page:
+    literal text and block.super are safe, data is escaped exactly once."""
+    from markupsafe import escape
+
     def f(it: tuple) -> tuple:
-        return ("T", "<" + it[1] + "&") if it[0] == "T" and it[1].strip() else it
-    return ({k: _map_items(v, f) for k, v in case[0].items()},) + tuple(case[1:])
+        if it[0] == "T" and it[1].strip():
+            raw = "<" + it[1] + '&"'
+            return ("T", str(escape(raw)) if (mode.get("ae") and mode.get("data")) else raw)
+        return it
+    case = tuple(case) + ((True,) if len(case) == 3 else ())
+    return ({k: _map_items(v, f) for k, v in case[0].items()},) + case[1:4] + (dict(mode),)
 
 
-def same_basename(case: tuple) -> tuple:
-    """The same chain with names t, d/t, d/d/t, ...: every Template.name is 't'."""
+_DIRS = ["", "b/", "a/", "c/a/", "a/b/", "b/a/c/"]
+
+
+def same_basename(case: tuple, scheme: int = 0) -> tuple:
+    """The same chain with hierarchical names that share their last component:
+    t, d/t, d/d/t, ... (scheme 0) or x, b/x, a/x, c/a/x, ... (scheme 1).  Run
+    also through the file-system loaders and from_string (opts more)."""
     def nm(n: str) -> str:
-        return "d/" * int(n[1:]) + "t" if n.startswith("t") and n[1:].isdigit() else n
+        if not (n.startswith("t") and n[1:].isdigit()):
+            return n
+        i = int(n[1:])
+        if scheme == 0:
+            return "d/" * i + "t"
+        return (_DIRS[i] if i < len(_DIRS) else f"p{i}/") + "x"
 
     def f(it: tuple) -> tuple:
         return ("E", nm(it[1])) if it[0] == "E" else it
+    case = tuple(case) + ((True,) if len(case) == 3 else ())
     tpls, entry = case[0], case[1]
     entry2 = ("direct", nm(entry[1])) if entry[0] == "direct" else ("wrap", [(r_, nm(n)) for r_, n in entry[1]])
-    return ({nm(k): _map_items(v, f) for k, v in tpls.items()}, entry2) + tuple(case[2:])
+    opts = dict(case[4]) if len(case) > 4 else {}
+    opts["more"] = True
+    return ({nm(k): _map_items(v, f) for k, v in tpls.items()}, entry2) + case[2:4] + (opts,)
+
+
+# legal chains and genuine cycles through names with a repeated last component
+NAME_CORPUS: list[tuple] = [
+    ({"base": [("T", "["), ("B", "a", False, [("T", "r0")], None), ("T", "]")],
+      "admin/base": [("E", "base"), ("B", "a", False, [("T", "a1"), ("S",)], None)]}, ("direct", "admin/base"), 30, True, {"more": True}),
+    ({"x": [("T", "["), ("B", "a", False, [("T", "r0")], None), ("T", "]")],
+      "b/x": [("E", "x"), ("B", "a", False, [("T", "b1"), ("S",)], None)],
+      "a/x": [("E", "b/x"), ("B", "a", False, [("T", "a2"), ("S",)], None)]}, ("direct", "a/x"), 30, True, {"more": True}),
+    ({"x": [("T", "["), ("B", "a", False, [("T", "r0")], None), ("T", "]")],
+      "b/x": [("E", "x")], "a/x": [("E", "b/x"), ("B", "a", False, [("T", "a2")], None)]},
+     ("wrap", [(False, "a/x"), (True, "a/x"), (False, "b/x")]), 30, True, {"more": True}),
+    ({"layouts/page": [("E", "page")], "page": [("T", "p0"), ("B", "a", False, [], None)],
+      "site/layouts/page": [("E", "layouts/page"), ("B", "a", False, [("T", "s1")], None)]},
+     ("direct", "site/layouts/page"), 30, True, {"more": True}),
+    # genuine cycles must still be refused
+    ({"x": [("E", "a/x")], "b/x": [("E", "x")], "a/x": [("E", "b/x")]}, ("direct", "a/x"), 30, True, {"more": True}),
+    ({"a/x": [("E", "a/x")]}, ("direct", "a/x"), 30, True, {"more": True}),
+    ({"x": [("E", "b/x")], "b/x": [("E", "x")], "a/x": [("E", "b/x")]}, ("wrap", [(True, "a/x")]), 30, True, {"more": True}),
+    ({"d/t": [("E", "t"), ("T", "q1")], "t": [("E", "d/t")]}, ("direct", "d/t"), 30, True, {"more": True}),
+]
+
+
+def super_chains() -> list[tuple]:
+    """Chains of depth 2..4 over one block where every member defines it, with
+    or without block.super (complete), for the markup / auto-escape variants."""
+    out = []
+    for d in (2, 3, 4):
+        for states in itertools.product("DS", repeat=d):
+            out.append(({f"t{i}": fam_template(i, ["a"], (st,), 0) for i, st in enumerate(states)},
+                        ("direct", f"t{d - 1}"), 30))
+    return out
 
 
 def _rq(body: list) -> tuple:
@@ -727,8 +822,9 @@ def _observe_chunk(chunk: list[tuple[dict, tuple, int]]) -> list[list[tuple]]:
         for case in chunk:
             tpls, entry, limit = case[:3]
             suppress = case[3] if len(case) > 3 else True
-            o = run.run(tpls, entry, limit, suppress)
-            o8 = run.run(tpls, entry, 8, suppress) if (("err", "RecursionError") in o and limit > 10) else None
+            opts = case[4] if len(case) > 4 else None
+            o = run.run(tpls, entry, limit, suppress, opts)
+            o8 = run.run(tpls, entry, 8, suppress, opts) if (("err", "RecursionError") in o and limit > 10) else None
             out.append((o, o8))
         return out
     finally:
@@ -824,23 +920,35 @@ def main(chk: C.Check, build: C.Build) -> None:
         if r.random() < 0.03 and len(tpls) > 1:
             cases.append((tpls, ("wrap", [(r.random() < 0.5, entry[1])]), limit, c[3] if len(c) > 3 else True))
             fam_wrapped += 1
-    # auto-escape variants and variants whose template names share their last path component
+    nrand = 600 if not thorough else 8000
+    for _ in range(nrand):
+        cases.append(rand_case(r, thorough) + (r.random() < 0.75,))
+    # configuration axes: markup characters in literal text / in render data with auto-escape on / off;
+    # hierarchical template names with a repeated last component (also file-system loaders, from_string)
     n_markup = n_basename = 0
     for c in cases[n_fixed:]:
         x = r.random()
         if x < 0.03:
-            cases.append(markupify(c))
+            cases.append(markupify(c, r.choice(MARKUP_MODES)))
             n_markup += 1
         elif x < 0.055:
-            cases.append(same_basename(c))
+            v = same_basename(c, r.randint(0, 1))
+            cases.append(markupify(v, r.choice(MARKUP_MODES)) if r.random() < 0.2 else v)
             n_basename += 1
+    for c in super_chains():
+        for mode in MARKUP_MODES:
+            cases.append(markupify(c, mode))
+            n_markup += 1
     for c in CORPUS[2:9] + BLANK_CORPUS[:3]:
-        cases.append(markupify(c))
-        cases.append(same_basename(c))
-    nrand = 600 if not thorough else 8000
-    for _ in range(nrand):
-        cases.append(rand_case(r, thorough) + (r.random() < 0.75,))
-    cases = [c if len(c) == 4 else c + (True,) for c in cases]
+        cases.append(markupify(c, r.choice(MARKUP_MODES)))
+        cases.append(same_basename(c, 0))
+        cases.append(same_basename(c, 1))
+        n_markup += 1
+        n_basename += 2
+    cases += NAME_CORPUS
+    n_basename += len(NAME_CORPUS)
+    cases = [tuple(c) + ((True,) if len(c) == 3 else ()) for c in cases]
+    cases = [c + (({},) if len(c) == 4 else ()) for c in cases]
 
     observed = observe_all(cases)
     interned = Interned(cases)
@@ -848,7 +956,8 @@ def main(chk: C.Check, build: C.Build) -> None:
     items: list[dict[str, Any]] = []
     dist = {"ok": 0, "TemplateInheritanceError": 0, "RequiredBlockError": 0, "TemplateNotFoundError": 0,
             "ContextDepthError": 0, "RecursionError": 0, "other": 0, "oracle_checked": 0, "wrapped": 0,
-            "spec_evaluated_in_coq": 0, "retied_at_limit_8": 0, "suppression_off": 0,
+            "spec_evaluated_in_coq": 0, "retied_at_limit_8": 0, "suppression_off": 0, "auto_escape_on": 0,
+            "markup_as_render_data": 0, "file_system_loaders_and_from_string": 0,
             "blank_body_suppressed": 0}
     nontriv: set[str] = set()
 
@@ -859,14 +968,18 @@ def main(chk: C.Check, build: C.Build) -> None:
             return ("err", "RecursionError")
         if any(o != outs[0] for o in outs):
             chk.finding("oracle:sync-async-or-caching-differ",
-                        f"DictLoader/sync, DictLoader/async, Caching/sync, Caching/async gave {outs}",
+                        f"(DictLoader, CachingDictLoader[, FileSystemLoader, CachingFileSystemLoader, from_string]) x (sync, async) gave {outs}",
                         {"templates": {k: to_src(v) for k, v in tpls.items()}, "entry": entry,
                          "context_depth_limit": limit, "outcomes": outs})
             return None
         return outs[0]
 
-    for (tpls, entry, limit, suppress), (outs, outs8) in zip(cases, observed):
+    for (tpls, entry, limit, suppress, opts), (outs, outs8) in zip(cases, observed):
         src = {k: to_src(v) for k, v in tpls.items()}
+        for k_, d_ in (("ae", "auto_escape_on"), ("data", "markup_as_render_data"),
+                       ("more", "file_system_loaders_and_from_string")):
+            if opts.get(k_):
+                dist[d_] += 1
         names = [entry[1]] if entry[0] == "direct" else [n for _, n in entry[1]]
         def lone(t: list) -> bool:
             bn = [it[1] for it in _walk(t) if it[0] == "B"]
@@ -908,7 +1021,7 @@ def main(chk: C.Check, build: C.Build) -> None:
             w = C.clist((C.cpair(C.cbool(rr), c_name(n)) for rr, n in entry[1]), "(bool * str)")
             model = f"run_wrapper {limit} {sb} ld {w}"
         replay = {"templates": src, "entry": entry, "context_depth_limit": limit,
-                  "suppress_blank_control_flow_blocks": suppress, "implementation": o}
+                  "suppress_blank_control_flow_blocks": suppress, "options": opts, "implementation": o}
         checks = [f"outcome_eqb ({model}) e"]
         shown = [model]
 
@@ -930,7 +1043,7 @@ def main(chk: C.Check, build: C.Build) -> None:
                       "model": head + "(" + ", ".join(shown) + ")", "replay": replay})
 
     # known finding 1 (defect 30): text before the leaf's extends tag is emitted
-    i30 = cases.index(W30 + (True,), n_fixed - 2)
+    i30 = cases.index(W30 + (True, {}), n_fixed - 2)
     o = agreed(observed[i30][0], *W30)
     sp = pyspec(W30[0], "t1")
     if o is not None and sp is not None and o != sp:
@@ -944,7 +1057,7 @@ def main(chk: C.Check, build: C.Build) -> None:
                         f"witness of defect 30 now gives {o}, specification {sp}", {"implementation": o, "specification": sp})
     # known finding 2 is re-observed by the loop above on WREC (and on the family members like it);
     # whatever else that witness does must still be a rejection
-    iR = cases.index(WREC + (True,), n_fixed - 2)
+    iR = cases.index(WREC + (True, {}), n_fixed - 2)
     o = agreed(observed[iR][0], *WREC)
     if o is not None and o not in (("err", "RecursionError"), ("err", "ContextDepthError")):
         chk.finding("oracle:recursive-structure-not-rejected", f"recursive block structure gave {o}",
@@ -978,7 +1091,16 @@ def main(chk: C.Check, build: C.Build) -> None:
                  "independently omitting / defining / defining-with-block.super / defining-as-required each block, the defined blocks "
                  "flat, nested in order, nested in reverse order or (3 blocks) two inside the first; the number run per (k,d) is in "
                  "'families' (thorough: (k,d) in {1}x{2,3,4}, (2,2), (2,3) completely, seeded samples of the rest; quick: seeded "
-                 "samples of each); 3% of them again through an include or render wrapper; plus the corpus (suite cases, rejections, "
+                 "samples of each); the blank family (per block omitted / visible / empty / whitespace / silent-tag-only / required with an "
+                 "empty body; flat, nested both ways or inside an if / for wrapper padded with whitespace; suppression on for ~80%); 3% of "
+                 "both again through an include or render wrapper; 3% of all generated chains as markup variants (every visible text gets "
+                 "< & and a quote: literal text under auto_escape, render data behind output tags under auto_escape - the page shows it "
+                 "escaped exactly once, also through block.super - and render data without auto_escape), plus all 28 chains of depth 2..4 "
+                 "whose members all define one block with / without block.super in each of the three modes; 2.5% with hierarchical "
+                 "template names that share their last component (t, d/t, d/d/t or x, b/x, a/x, c/a/x), these also through "
+                 "FileSystemLoader / CachingFileSystemLoader over a scratch directory and through env.from_string(leaf), with a corpus of "
+                 "legal chains and genuine cycles through such names; plus the corpus (suite cases, rejections, required blank blocks "
+                 "nested in blank blocks / if / for, "
                  "extends inside blocks, several chains in one render context), chains at the boundaries of both context limits, "
                  "seeded random chains of depth <= 8/12 with cycles, missing parents, duplicates, stray extends, endblock names and "
                  "context_depth_limit in {3..12,30}, entered directly or through include/render wrappers. Every case is rendered "
